@@ -202,6 +202,29 @@ def minimal(viol_map):
     return out
 
 
+def report_minimal(rep, viol_map, sig_of, confirm):
+    """Report the minimal sequences of viol_map (first per signature).  confirm(h, sig) re-executes the recorded case in
+    fresh processes and returns the violation, or None when the observation of the walk does not reproduce: such an
+    observation is environmental, it is dropped, counted in the evidence, and minimality is recomputed without it (so it
+    can never mask a real violation that it seemed to explain)."""
+    viol_map = dict(viol_map)
+    while True:
+        dropped = False
+        for h in minimal(viol_map):
+            sig = sig_of(h, viol_map[h])
+            if sig in rep.violations:
+                continue
+            v = confirm(h, sig)
+            if v is None:
+                rep.add("unreproducible_observations")
+                del viol_map[h]
+                dropped = True
+                break
+            rep.violation(v)
+        if not dropped:
+            return viol_map
+
+
 _SYMBOLS = {u"→": ">", u"│": "|", u"•": "*"}
 
 
@@ -436,20 +459,21 @@ def explore_histories(rep, tag, alphabet, depth, modes):
             nontrivial += (n ** (k - 1) - (n - len(touching)) ** (k - 1)) * n
         if mode == "default":
             base_viol = viol_map
-        mins = minimal(viol_map)
-        for h in mins:
-            d = viol_map[h]
+        def sig_of(h, d):
             mtag = "" if mode == "default" or set(d) <= set(base_viol.get(h, ())) else mode + ":"
-            sig = "history:%s%s" % (mtag, ",".join(d))
-            if sig in rep.violations:
-                continue
+            return "history:%s%s" % (mtag, ",".join(d))
+
+        def confirm(h, sig):
             case = history_case(mode, h)
             got = check_history_case(case)
             if got is None:
-                raise RuntimeError("engine error: violating history %r does not reproduce" % (h,))
+                return None
             e, o, det = got
-            rep.violation(report.viol(sig, "after %s the line %r differs from a fresh application in [%s]" % (
-                " ; ".join(repr(LINES[x][0]) for x in h[:-1]) or "nothing", LINES[h[-1]][0], ", ".join(det)), case, _brief(e), _brief(o)))
+            return report.viol(sig, "after %s the line %r differs from a fresh application in [%s]" % (
+                " ; ".join(repr(LINES[x][0]) for x in h[:-1]) or "nothing", LINES[h[-1]][0], ", ".join(det)), case, _brief(e), _brief(o))
+
+        viol_map = report_minimal(rep, viol_map, sig_of, confirm)
+        mins = minimal(viol_map)
         rep.part("histories/%s/%s" % (tag, mode), alphabet=list(alphabet), depth=depth, histories=n_hist,
                  violating_histories=len(viol_map), minimal_violating=[list(h) for h in mins][:40])
     return tot_hist, tot_runs, nontrivial
@@ -742,20 +766,28 @@ def explore_components(rep, seq_depth, pair_ios):
     for c in bad:
         if c["kind"] == "seq":
             seq_viol.setdefault(c["factory"], {})[tuple(c["ios"])] = (c["d"],)
-    seq_min = {f: set(minimal(vm)) for f, vm in seq_viol.items()}
+    for f in sorted(seq_viol):
+        g = FACTORIES[f][0].split("/")[0]
+
+        def confirm(h, sig, f=f):
+            c = {"kind": "seq", "factory": f, "ios": list(h)}
+            got = run_component_case(c)
+            if got is None:
+                return None
+            return report.viol(sig, "%s rendered on %s differs from a fresh object's render on %s" % (f, " then ".join(h), h[-1]),
+                               dict(c, part="component"), _clip(got[0]), _clip(got[1]))
+
+        report_minimal(rep, seq_viol[f], lambda h, d, g=g: "component:%s:%s:on-%s" % (g, d[0], h[-1]), confirm)
     keep = []
     for c in bad:
-        g = FACTORIES[c["factory"]][0]
+        g = FACTORIES[c["factory"]][0].split("/")[0]
         if c["kind"] == "seq":
-            if tuple(c["ios"]) not in seq_min[c["factory"]]:
-                continue
-            sig = "component:%s:%s:on-%s" % (g.split("/")[0], c["d"], c["ios"][-1])
-            what = "%s rendered on %s differs from a fresh object's render on %s" % (c["factory"], " then ".join(c["ios"]), c["ios"][-1])
+            continue
         elif c["kind"] == "same-io":
-            sig = "component-twice:%s:%s:on-%s" % (g.split("/")[0], c["d"], c["io"])
+            sig = "component-twice:%s:%s:on-%s" % (g, c["d"], c["io"])
             what = "%s rendered twice on one %s IO: outputs differ from the fresh render" % (c["factory"], c["io"])
         else:
-            sig = "other-object:%s:after:%s:%s:on-%s" % (g.split("/")[0], FACTORIES[c["first"]][0].split("/")[0], c["d"], c["io"])
+            sig = "other-object:%s:after:%s:%s:on-%s" % (g, FACTORIES[c["first"]][0].split("/")[0], c["d"], c["io"])
             what = "%s on %s, after %s had been rendered on %s in the same process, differs from its render in a fresh process" % (
                 c["factory"], c["io"], c["first"], c["first_io"])
         c = {k: v for k, v in c.items() if k != "d"}
@@ -765,7 +797,8 @@ def explore_components(rep, seq_depth, pair_ios):
             continue
         got = run_component_case(c)
         if got is None:
-            raise RuntimeError("engine error: violating component case %r does not reproduce" % (c,))
+            rep.add("unreproducible_observations")
+            continue
         rep.violation(report.viol(sig, what, dict(c, part="component"), _clip(got[0]), _clip(got[1])))
     rep.part("components", factories=len(names), sequence_depth=seq_depth, sequence_and_twice_cases=n_seq,
              pair_cases=n_pair, pair_io_kinds=list(pair_ios), violating=len(bad))
@@ -850,12 +883,14 @@ def explore_layout(rep, depth):
     for recs in par.pmap(lambda p: tree_job(new_layout, p, names, depth, step), [(n,) for n in names]):
         for r in recs:
             vm[tuple(r["s"])] = tuple(r["d"])
-    for s in minimal(vm):
-        sig = "layout-reuse:BlockLayout:" + ",".join(vm[s])
-        if sig in rep.violations:
-            continue
-        rep.violation(report.viol(sig, "a BlockLayout used again after render() lays out the batch %r differently from a fresh layout (earlier batches: %r)" % (s[-1], list(s[:-1])),
-                                  {"part": "layout", "batches": list(s)}, refs[s[-1]], forked(run_layout, s)))
+    def confirm(h, sig):
+        again = forked(run_layout, h)
+        if again == refs[h[-1]]:
+            return None
+        return report.viol(sig, "a BlockLayout used again after render() lays out the batch %r differently from a fresh layout (earlier batches: %r)" % (h[-1], list(h[:-1])),
+                           {"part": "layout", "batches": list(h)}, refs[h[-1]], again)
+
+    report_minimal(rep, vm, lambda h, d: "layout-reuse:BlockLayout:" + ",".join(d), confirm)
     n = nodes_below(len(names), depth)
     rep.part("layout", batches=names, depth=depth, sequences=n, violating=len(vm))
     return n
@@ -990,6 +1025,11 @@ def explore_styles(rep):
             sig = "style-creation:%s" % victim
         else:
             sig = "style-%s->%s" % (kind, victim)
+        if sig in rep.violations:
+            continue
+        if judge_style(refs, sc, run_style_subprocess if is_fresh else run_style_forked) is None:
+            rep.add("unreproducible_observations")
+            continue
         what = ("a table with the %s style renders differently from a process in which only that style was built" % victim if twin is None else
                 "a table with the %s style renders differently once another style object has been customised" % victim)
         rep.violation(report.viol(sig, what + " (scenario: %s)" % (label,),
